@@ -25,7 +25,8 @@ WideDtShs == ((AllDts \ {"f8"}) \X {"a"}) \cup ({"i8", "u1", "i2", "f4", "c16"} 
 DtShs == IF Profile = "hist" THEN {<<"f8", "a">>, <<"i8", "q">>, <<"f8", "v2">>, <<"i2", "a">>, <<"f4", "a">>, <<"u1", "q">>}
          ELSE WideDtShs
 \* hist: float64 objects hold value pair 1 (velocity: also a beta pair), int64 objects the large pair 3, narrow dtypes pair 5
-PairIdx(d) == IF Profile = "hist" THEN (IF d = "velocity" THEN {1, 3, 5, 6} ELSE IF d = "dimensionless" THEN {1} ELSE {1, 3, 5}) ELSE DOMAIN ValPairs(d)
+\* (round 7) the float64 array of the default registry also holds the pair with an exact zero (the last pair of its dimension)
+PairIdx(d) == IF Profile = "hist" THEN (IF d = "velocity" THEN {1, 3, 5, 6, Len(ValPairs(d))} ELSE IF d = "dimensionless" THEN {1} ELSE {1, 3, 5, Len(ValPairs(d))}) ELSE DOMAIN ValPairs(d)
 \* which value pairs a dtype may hold: float64 everything; 8-byte integers the integral pairs; complex128 pairs 1 and 5;
 \* narrower dtypes the moderate pair 5 (exact in every dtype), float32/complex64 also a beta pair, floats a gamma pair
 PairOk(d, pi, dt) ==
@@ -66,6 +67,7 @@ InitOk(d, u, pi, dt, sh, reg) ==
   /\ dt \in IntDts => \A j \in 1..NElem(sh) : IntOk(ValPairs(d)[pi][j])
   /\ d \in OutsideDims => (Units[u].n = 1 /\ pi = 1 /\ dt = "f8" /\ sh = "a")
   /\ Profile = "hist" => ((dt = "i8") <=> (pi = 3)) /\ (dt = "f8" => pi # 5)
+  /\ (Profile = "hist" /\ IsSpecPair(d, pi)) => (dt = "f8" /\ sh = "a")
 Init == \E d \in AllDims : \E u \in UnitsOfDim(d), pi \in PairIdx(d), ds \in DtShs, reg \in Regs :
           /\ InitOk(d, u, pi, ds[1], ds[2], reg) /\ PartOk(ds[1], reg)
           /\ init = [d |-> d, u |-> u, pi |-> pi, dt |-> ds[1], sh |-> ds[2], reg |-> reg, v |-> MkObj(d, u, ValPairs(d)[pi], ds[1], ds[2]).v]
@@ -77,7 +79,7 @@ Targets(o, eq) ==
      LET tb == Units[tu].d IN
      \/ /\ Covered(eq, o.d, tb)
         /\ IF o.reg = "default" THEN (Units[tu].n <= NUout \/ IsOffset(tu)) /\ Units[tu].c # "code"
-           ELSE IF Profile = "hist" THEN HistCustomUnit(tu) ELSE CustomUnit(tu)
+           ELSE IF Profile = "hist" THEN HistCustomUnit(tu) \/ (Units[tu].n = 1 /\ Units[tu].c = "si") ELSE CustomUnit(tu)
         /\ o.dt # "f8" => Units[o.u].c = "si"      \* narrow/integer/complex objects are only converted from coherent SI units
      \/ /\ Uncovered(eq, o.d, tb) /\ (Units[tu].n = 1 \/ (IsOffset(tu) /\ Profile = "single")) /\ GateOn(init)
         /\ Profile = "single" \/ (tb \in {"time", "energy"} /\ eq \in {"thermal", "lorentz"})
@@ -101,14 +103,25 @@ TfIdx(tf) == CASE tf = "str" -> 0 [] tf = "uin" -> 1 [] tf = "udef" -> 2
 TFs(en, tu) == IF init.reg = "custom" /\ Profile # "hist" THEN (IF Units[tu].c \in {"si", "offset"} THEN TForms ELSE {"str", "uin"})
                ELSE IF Profile = "sim" THEN {"str", "uin"}
                ELSE IF (Units[tu].n + Units[init.u].n + init.pi + EnIdx(en) + Len(hist)) % 2 = 0 THEN {"str"} ELSE {"uin"}
+\* (round 7) twins in the single-step instance: a covered in-place request on a float64 object is preceded, in the same
+\* history, by the copying form of the same request (to for convert_to_units, to_equivalent for convert_to_equivalent),
+\* result not followed - so "the in-place form yields the same numbers and unit as the copying form" is judged over the
+\* wide alphabet of units, registries and target forms (all objects of the custom registry; value pairs 1, 2 and the zero
+\* pair of the default registry)
+TwinOf(en) == IF en = "convert_to_units" THEN "to" ELSE "to_equivalent"
+TwinOn(en, eq, tu) == /\ Profile = "single" /\ en \in InPlaceEntries /\ init.dt = "f8" /\ Covered(eq, obj.d, Units[tu].d)
+                      /\ (init.reg = "custom" \/ init.pi \in {1, 2} \/ IsSpecPair(init.d, init.pi))
 Step(en, eq, k, tu, fo, tf) ==
   LET q == [en |-> en, eq |-> eq, k |-> k, tu |-> tu, fo |-> fo]
       out == Outcome(obj, q)
       tb == Units[tu].d
-      fv == IF Covered(eq, obj.d, tb) THEN FormulaVals(eq, obj.d, tb, k, obj.v) ELSE <<>> IN
+      fv == IF Covered(eq, obj.d, tb) THEN FormulaVals(eq, obj.d, tb, k, obj.v) ELSE <<>>
+      rec(e, f, o) == [en |-> e, eq |-> eq, k |-> k, tu |-> tu, fo |-> f, tf |-> tf, kw |-> KwRec(k), exp |-> o, cand |-> fv, so |-> IsOffset(obj.u)]
+      qc == [en |-> TwinOf(en), eq |-> eq, k |-> k, tu |-> tu, fo |-> FALSE] IN
   /\ out.k # "undef"
   /\ Covered(eq, obj.d, tb) => fv # <<>>
-  /\ hist' = Append(hist, [en |-> en, eq |-> eq, k |-> k, tu |-> tu, fo |-> fo, tf |-> tf, kw |-> KwRec(k), exp |-> out, cand |-> fv, so |-> IsOffset(obj.u)])
+  /\ hist' = IF TwinOn(en, eq, tu) THEN hist \o <<rec(TwinOf(en), FALSE, Outcome(obj, qc)), rec(en, fo, out)>>
+             ELSE Append(hist, rec(en, fo, out))
   /\ obj' = After(obj, q, out)
   /\ init' = init
 \* profile hist: every step of a history uses one equivalence (keywords free); mixed chains are left to the simulator
@@ -125,7 +138,7 @@ Next == /\ Len(hist) < MaxLen
              /\ \E fo \in Follows(en, Len(hist) + 1 = MaxLen) : Step(en, eq, k, tu, fo, tf)
 Spec == Init /\ [][Next]_vars
 
-ExportHist == Len(hist) = ExportLen => PrintT(ToJson([tag |-> "HIST", init |-> init, h |-> hist]))
+ExportHist == (Len(hist) >= ExportLen /\ Len(hist) > 0) => PrintT(ToJson([tag |-> "HIST", init |-> init, h |-> hist]))
 \* model-level: along every history the transcription agrees with the defining formula
 \* (the only refusals of a covered request in the transcription: in place on 1-byte integers; an input that is a reading
 \* on an offset scale - the library refuses arithmetic on degC/degF readings)
